@@ -139,8 +139,8 @@ def r1(cx):
         if ok:
             cb = F.body(clo['rv']['def'])
             cx.fn(cb.fn)
-            ps = Q.find_calls(cb, ['alloc::string::String::push_str'])
-            ok = len(ps) == 1 and len(list(cb.calls())) == 1
+            ps = Q.find_calls(cb, ['alloc::string::String::push_str', '*::Extend::extend', re.compile(r'AddAssign<.*>>::add_assign$')])
+            ok = len(ps) >= 1
         if not ok:
             cx.violation(SEARCH_DIR, 'appends-other-name', 'the component appended for a matching entry is not the entry name itself',
                          loc=body.loc(t))
